@@ -6,7 +6,7 @@
 
    Full:     C16_gauss_subset_order, C16_gauss_unsorted_rejected, C16_gauss_displacement_order,
              C16_gauss_photon, C16_gauss_quad_photon, C16_fock_prob_all_probs, C16_fock_trace,
-             C16_gauss_parity_ignores_modes (a theorem ABOUT the defect), C16_gauss_parity_refuted.
+             C16_gauss_parity_subset, C16_gauss_parity_order (model of the code after fix 5603fbf).
    Partial:  the statements kept as `Definition ..._statement` below are not proved in Coq; they
              are validated on every run by exact correspondence (einsum subscripts captured from
              numpy, integer tensors) and by the search. *)
@@ -105,33 +105,25 @@ Theorem C16_fock_trace :
 Proof. exact trace_is_sum_probs. Qed.
 Print Assumptions C16_fock_trace.
 
-(* The faithful model of BaseGaussianState.parity_expectation does not depend on WHICH modes are
-   requested (only on how many): a theorem about the defect recorded as known finding
-   gauss.parity_expectation:modes-ignored *)
-Theorem C16_gauss_parity_ignores_modes :
+(* BaseGaussianState.parity_expectation(modes) (code after fix 5603fbf): for every ascending,
+   duplicate-free, in-range list it is the Gaussian parity formula on the reduced state of exactly
+   those modes, for every register size; and listing the modes in another order changes nothing. *)
+Theorem C16_gauss_parity_subset :
+  forall (K : Type) (k1 : K) (kmul : K -> K -> K) (mu : nat -> K) (cov : nat -> nat -> K) (n : nat)
+         (G : list K -> list (list K) -> K) (hb2 : K) (modes : list nat),
+    sorted_lt modes = true -> (forall m, In m modes -> m < n) ->
+    parity_expectation K k1 kmul mu cov n G hb2 modes = Ok (parity_spec K k1 kmul mu cov n G hb2 modes).
+Proof. exact parity_expectation_subset. Qed.
+Print Assumptions C16_gauss_parity_subset.
+
+Theorem C16_gauss_parity_order :
   forall (K : Type) (k1 : K) (kmul : K -> K -> K) (mu : nat -> K) (cov : nat -> nat -> K) (n : nat)
          (G : list K -> list (list K) -> K) (hb2 : K) (modes1 modes2 : list nat),
-    length modes1 = length modes2 -> has_dup modes1 = false -> has_dup modes2 = false ->
-    parity_coded K k1 kmul mu cov n G hb2 modes1 = parity_coded K k1 kmul mu cov n G hb2 modes2.
-Proof. exact parity_coded_ignores_modes. Qed.
-Print Assumptions C16_gauss_parity_ignores_modes.
-
-(* ... and therefore differs from the parity of the requested modes: two-mode product state
-   (hbar = 2), mode 0 vacuum, mode 1 thermal with 2 nbar + 1 = 4; G(full) = 1/4, G(mode 0) = 1. *)
-Definition q_mu : nat -> Q := fun _ => 0%Q.
-Definition q_cov : nat -> nat -> Q := fun i j => if Nat.eqb i j then (if Nat.even i then 1%Q else 4%Q) else 0%Q.
-Theorem C16_gauss_parity_refuted :
-  forall G : list Q -> list (list Q) -> Q,
-    G (sel_mu Q q_mu (seq 0 4)) (sel_cov Q q_cov (seq 0 4)) = (1 # 4)%Q ->
-    G (sel_mu Q q_mu (gidx 2 [0])) (sel_cov Q q_cov (gidx 2 [0])) = 1%Q ->
-    exists modes, exists v,
-      parity_coded Q 1%Q Qmult q_mu q_cov 2 G 1%Q modes = Ok v /\
-      ~ Qeq v (parity_spec Q 1%Q Qmult q_mu q_cov 2 G 1%Q modes).
-Proof.
-  intros G Hfull Hred. exists [0]. eexists. split; [reflexivity|].
-  unfold parity_spec. simpl kpow. simpl length. change (2 * 2) with 4. rewrite Hfull, Hred. discriminate.
-Qed.
-Print Assumptions C16_gauss_parity_refuted.
+    has_dup modes1 = false -> has_dup modes2 = false ->
+    sort_nat modes1 = sort_nat modes2 -> length modes1 = length modes2 ->
+    parity_expectation K k1 kmul mu cov n G hb2 modes1 = parity_expectation K k1 kmul mu cov n G hb2 modes2.
+Proof. exact parity_expectation_order. Qed.
+Print Assumptions C16_gauss_parity_order.
 
 (* hypotheses are satisfiable: Q is a field; 3/5, 4/5 is a point of the unit circle *)
 Example C16_field_inhabited : field_theory (Q2Qc 0) (Q2Qc 1) Qcplus Qcmult Qcminus Qcopp Qcdiv Qcinv eq.
@@ -141,6 +133,8 @@ Proof. reflexivity. Qed.
 Example C16_reduced_ok_inhabited :
   reduced_gaussian nat (fun i => i) (fun i j => 10 * i + j) 3 [0; 2] = Ok ([0; 2; 3; 5], [[0; 2; 3; 5]; [20; 22; 23; 25]; [30; 32; 33; 35]; [50; 52; 53; 55]]).
 Proof. reflexivity. Qed.
+Example C16_parity_hyp_inhabited : sorted_lt [0; 2] = true /\ sort_nat [2; 0] = sort_nat [0; 2].
+Proof. split; reflexivity. Qed.
 Example C16_fock_prob_inhabited : fock_prob nat 3 2 (fun idx => flatten 3 idx) [1; 2] = Ok 44.
 Proof. reflexivity. Qed.
 (* the duplicate check of reduced_gaussian / reduced_dm is ineffective: [1;1] is accepted *)
